@@ -109,7 +109,7 @@ def showUri (u : Uri) : String := s!"{u.name}.{u.variant}"
 
 def showOut : Out → String
   | .publish u v rs => s!"P{showUri u}:{v}:{showRanges rs}"
-  | .locations u rs => s!"L{showUri u}:{showRanges rs}"
+  | .locations u rs => if rs.isEmpty then "L:-" else s!"L{showUri u}:{showRanges rs}"  -- an empty list shows no URI
   | .defError .notOpen => "E:notopen"
   | .defError (.pos e) => s!"E:{showErr e}"
 
@@ -186,9 +186,11 @@ def handle (args : List String) : Option String :=
       let (m, tab, ops) ← parseHist mode contents ops
       -- the documented behaviour: all repairs in place (UTF-16 columns, problems inside the document, no crash);
       -- an empty change list is judged only for "no crash"
-      let spec := transcript { Mode.fixed with emptyIgnored := m.emptyIgnored || true } tab ops
+      let _ := m
+      let spec := transcript Mode.fixed tab ops
       let specItems := (spec.splitOn " ").filter (· ≠ "")
       if go.contains "CRASH" then some "violates: the server process died"
+      else if go.contains "HANG" then some "violates: the server did not answer within the timeout"
       else if go.head? == some "wf=0" || specItems.head? == some "wf=0" then
         some "violates: a problem or identifier lies outside the document (or not on a rune boundary)"
       else match firstDiff go specItems with
